@@ -1,7 +1,7 @@
 """Configuration of the C01 check (see lib/props.py)."""
 P = {'id': 'C01',
  'level': 'proof',
- 'theorems': ['pack_unpack', 'huff_roundtrip', 'huff_encode_rejects', 'huff_encode_total'],
+ 'theorems': ['pack_unpack', 'huff_roundtrip', 'huff_encode_rejects', 'huff_encode_total', 'gen_codes_wf', 'build_root_wf', 'ht_from_heap_wf', 'writer_write_refines', 'writer_finish_refines', 'reader_refill_refines', 'reader_peek_refines', 'reader_consume_refines', 'decode_one_symbol_refines', 'ctx_roundtrip', 'ctx_encode_rejects', 'chunks_partition', 'xn_roundtrip', 'xn_refuted_long_codes', 'xn_refuted_missing_symbol', 'ctx_refuted_fallback', 'ctx_refuted_single_leaf', 'xn_refuted_single_leaf'],
  'trusted': [],
  'assumptions': [],
  'level_text': 'wip',
